@@ -76,6 +76,8 @@ def catalogue():
     # a long timeout rule on an open act and a timer tick before the client answers (reload must keep the start time)
     C["tmo_reload"] = (wf("m", [step("s1", [irq("a1", timeout=[timeout("1h", [step("ts0", [irq("ta0")])])], _pre_actions=[["SetProcessVars", {"z": 1}], ["Tick", {}]])]), step("s2", [irq("a2", _pre_actions=[["SetProcessVars", {"z": 2}], ["Tick", {}]])],
                                                                                                                                                  timeout=[timeout("2h", [step("ts1", [irq("ta1")])])])]), {})
+    # steps and acts WITHOUT explicit ids (the engine generates them when the tree is built; the stored model must carry them for a reload)
+    C["no_ids"] = ({"id": "m", "steps": [{"acts": [{"uses": "acts.core.irq", "key": "k1"}]}, {"acts": [{"uses": "acts.core.irq", "key": "k2"}, {"uses": "acts.core.irq", "key": "k3"}]}]}, {})
     C["two_steps"] = (wf("m", [step("s1", [irq("a1")]), step("s2", [irq("a2")])]), {})
     C["one_irq"] = (wf("m", [step("s1", [irq("a1")])]), {})
     C["if_else_first"] = (wf("m", [step("s1", branches=[
@@ -222,7 +224,7 @@ def catalogue():  # noqa: F811
 
 
 # skeletons that only make sense for a particular driver (tree check, engine-raised errors, reload with ticks)
-SPECIAL = ("step_next", "tmo_reload", "init_err_own_catch", "init_err_step_catch", "init_err_uncaught")
+SPECIAL = ("step_next", "tmo_reload", "no_ids", "init_err_own_catch", "init_err_step_catch", "init_err_uncaught")
 
 
 def flow_names(extended=True):
